@@ -4,7 +4,7 @@ CONSTANTS
   Names = {"b", "n"}
   Cons = {"n"}
   Local = FALSE
-  Variant = "locked"
+  Variant = "deferred"
 INVARIANT P_AsAlone
 INVARIANT P_LockFree
 PROPERTY Termination
